@@ -790,6 +790,37 @@ def _pure_body_expr(fn: ast.FunctionDef) -> Optional[ast.AST]:
         inner = copy.copy(fn)
         inner.body = list(body[0].body)
         return _pure_body_expr(inner)
+    if body and isinstance(body[0], ast.Try) and len(body) <= 2:
+        # `try: i = R.choice(len(D)) except ValueError: return None [else:] return F(i)`: the
+        # draw refuses exactly when D is empty (a one-argument choice of a length), so the
+        # function is `None if len(D) == 0 else F(R.choice(len(D)))`
+        t = body[0]
+        tail = list(t.orelse) + body[1:]
+        if not t.finalbody and len(t.body) == 1 and isinstance(t.body[0], ast.Assign) and \
+                len(t.body[0].targets) == 1 and isinstance(t.body[0].targets[0], ast.Name) and \
+                len(t.handlers) == 1 and t.handlers[0].type is not None and \
+                ast.unparse(t.handlers[0].type) == 'ValueError' and \
+                len(t.handlers[0].body) == 1 and isinstance(t.handlers[0].body[0], ast.Return) \
+                and (t.handlers[0].body[0].value is None or (
+                    isinstance(t.handlers[0].body[0].value, ast.Constant)
+                    and t.handlers[0].body[0].value.value is None)) and \
+                len(tail) == 1 and isinstance(tail[0], ast.Return) and \
+                tail[0].value is not None:
+            d = t.body[0].value
+            if isinstance(d, ast.Call) and isinstance(d.func, ast.Attribute) and \
+                    d.func.attr == 'choice' and isinstance(d.func.value, ast.Name) and \
+                    len(d.args) == 1 and not d.keywords and isinstance(d.args[0], ast.Call) \
+                    and ast.unparse(d.args[0].func) == 'len' and len(d.args[0].args) == 1 \
+                    and isinstance(d.args[0].args[0], ast.Name):
+                var = t.body[0].targets[0].id
+                uses = [n for n in ast.walk(tail[0].value)
+                        if isinstance(n, ast.Name) and n.id == var]
+                if len(uses) == 1:
+                    val = _SubstNames({var: d}).visit(copy.deepcopy(tail[0].value))
+                    test = ast.Compare(copy.deepcopy(d.args[0]), [ast.Eq()], [ast.Constant(0)])
+                    return ast.fix_missing_locations(
+                        ast.IfExp(test, ast.Constant(None), val))
+        return None
     if not body or not isinstance(body[-1], ast.Return) or body[-1].value is None:
         return None
     chain = []      # `if C: return A` steps before the final return
